@@ -231,6 +231,13 @@ func (ord *Order) Normalize(normalizers tax.Normalizers) {
 	}
 	ord.Series = cbc.NormalizeCode(ord.Series)
 	ord.Code = cbc.NormalizeCode(ord.Code)
+	ord.ExchangeRates = dropNilRows(ord.ExchangeRates)
+	ord.Preceding = dropNilRows(ord.Preceding)
+	ord.Lines = dropNilRows(ord.Lines)
+	ord.Discounts = dropNilRows(ord.Discounts)
+	ord.Charges = dropNilRows(ord.Charges)
+	ord.Notes = dropNilRows(ord.Notes)
+	ord.Complements = dropNilRows(ord.Complements)
 
 	normalizers.Each(ord)
 
